@@ -25,7 +25,8 @@ META = {
              'lues before table, one global table with per-block bit width'
              's), valid_dataset: multi-scale datasets with per-scale block'
              ' sizes read through PrecomputedIO, valid_huge: channels of 2'
-             '4+ MiB.'),
+             '4+ MiB.'
+             " Round 12: well-formed images of other containers / pixel types offered to the JPEG decoder."),
     "trusted_base": ["vlib/refs/cseg_spec.py encoder for alternative valid "
                      "layouts", "Pillow as JPEG writer"],
     "assumptions": ["a watchdog of 30 s decides 'hangs' (normal cases take "
